@@ -547,6 +547,8 @@ class GenericPlainRegistry(Generic[QuantityT, UnitT], metaclass=RegistryMeta):
         target_dict[key] = value
         if target_dict is self._units:
             self._prefixed_units.discard(key)
+            # a memoized parse of this spelling (e.g. as prefix + unit) is obsolete
+            self._cache.parse_unit.pop(key, None)
         if casei_target_dict is not None:
             casei_target_dict[key.lower()].add(key)
 
